@@ -10,7 +10,7 @@ use vcore::{prop_search, Outcome, Run, Search};
 use wire::*;
 use wtransport::Connection;
 
-const RULE: &str = "case = runtime flavour x role x termination cause in {peer QUIC application close(code, reason), peer close capsule, peer clean FIN of the session stream, local Connection::close, protocol error provoked by the raw peer (DATA on the control stream), idle timeout (relay black hole), all handles dropped} x set of pending operations in separate tasks on 1..4 cloned handles drawn from {accept_uni, accept_bi, receive_datagram, closed, read, write (flow-control blocked), stopped, an opening future} x delay between issuing the calls and raising the cause x with/without a stalled peer stream. Oracle: every pending call and three later calls of each kind complete within the bound with an error from the admissible set of the cause (exact peer code/reason, local protocol error, timeout, or a local close), never success, a hang, a panic or another cause; with all handles dropped the peer sees the connection closed and the endpoint has no open connection. Hook part: generated op sequences over shared_result / bichannel against a set-once / FIFO model. Non-trivial: >= 2 pending operations of different kinds when the cause fires; distinct = distinct case";
+const RULE: &str = "case = runtime flavour x role x termination cause in {peer QUIC application close(code, reason), peer close capsule, peer clean FIN of the session stream, local Connection::close, protocol error provoked by the raw peer (DATA on the control stream), idle timeout (relay black hole), all handles dropped} x set of pending operations in separate tasks on 1..4 cloned handles drawn from {accept_uni, accept_bi, receive_datagram, closed, read, write (flow-control blocked), stopped, an opening future} x delay between issuing the calls and raising the cause x with/without a stalled peer stream x backlog of 0..7 datagrams and 0..11 streams of the session the application never picks up (hand-off queues full when the cause fires). Oracle: every pending call and three later calls of each kind complete within the bound with an error from the admissible set of the cause (exact peer code/reason, local protocol error, timeout, or a local close), never success, a hang, a panic or another cause; with all handles dropped the peer sees the connection closed and the endpoint has no open connection. Hook part: generated op sequences over shared_result / bichannel against a set-once / FIFO model. Non-trivial: >= 2 pending operations of different kinds when the cause fires; distinct = distinct case";
 
 #[derive(Clone, Debug, Serialize, Deserialize, PartialEq)]
 pub enum Cause {
@@ -37,6 +37,13 @@ pub struct Case {
     /// healthy peer streams / datagrams sent in the same flight as the cause (before and after it)
     #[serde(default)]
     pub noise: u8,
+    /// datagrams of the session the peer sent before the end and the application never asked
+    /// for (unless receive_datagram is among the pending calls)
+    #[serde(default)]
+    pub dgram_backlog: u8,
+    /// streams of the session the peer opened before the end beyond what the application accepts
+    #[serde(default)]
+    pub stream_backlog: u8,
 }
 
 fn code_strategy() -> impl Strategy<Value = u64> {
@@ -53,8 +60,8 @@ pub fn case_strategy() -> impl Strategy<Value = Case> {
         1 => Just(Cause::IdleTimeout),
         3 => Just(Cause::HandlesDropped),
     ];
-    (0u8..3, any::<bool>(), cause, any::<u8>(), 1u8..=4, prop_oneof![Just(0u8), Just(3), Just(25)], any::<bool>(), prop_oneof![2 => Just(0u8), 1 => 1u8..10])
-        .prop_map(|(flavor, wt_is_server, cause, ops, clones, delay_ms, stalled_stream, noise)| Case { flavor, wt_is_server, cause, ops: if ops == 0 { 0b0000_0111 } else { ops }, clones, delay_ms, stalled_stream, noise })
+    (0u8..3, any::<bool>(), cause, any::<u8>(), 1u8..=4, prop_oneof![Just(0u8), Just(3), Just(25)], any::<bool>(), prop_oneof![2 => Just(0u8), 1 => 1u8..10], (prop_oneof![2 => Just(0u8), 1 => 2u8..8], prop_oneof![3 => Just(0u8), 1 => 1u8..12]))
+        .prop_map(|(flavor, wt_is_server, cause, ops, clones, delay_ms, stalled_stream, noise, (dgram_backlog, stream_backlog))| Case { flavor, wt_is_server, cause, ops: if ops == 0 { 0b0000_0111 } else { ops }, clones, delay_ms, stalled_stream, noise, dgram_backlog, stream_backlog })
 }
 
 #[derive(Default)]
@@ -189,6 +196,25 @@ async fn exec_async(case: Arc<Case>) -> CaseResult {
             Ok(o) => opening = Some(o),
             Err(e) => return CaseResult::Skip(conn_err(&e)),
         }
+    }
+    // arrivals the application does not pick up: they fill the library's hand-off queues
+    if case.dgram_backlog > 0 || case.stream_backlog > 0 {
+        for _ in 0..case.dgram_backlog {
+            let _ = raw_conn.send_datagram(refcodec::enc_datagram(session, b"backlog").into());
+        }
+        for k in 0..case.stream_backlog {
+            if k % 2 == 0 {
+                if let Ok(mut s) = raw_open_wt_uni(&raw_conn, session).await {
+                    let _ = s.write_all(b"backlog").await;
+                    raw_held.push(Box::new(s));
+                }
+            } else if let Ok((mut s, r)) = raw_open_wt_bi(&raw_conn, session).await {
+                let _ = s.write_all(b"backlog").await;
+                raw_held.push(Box::new((s, r)));
+            }
+        }
+        flush_acked(&raw_conn, Duration::from_millis(150)).await;
+        tokio::time::sleep(Duration::from_millis(15)).await;
     }
     let handles: Vec<Connection> = (0..case.clones.max(1)).map(|_| conn.clone()).collect();
     let h = |i: usize| handles[i % handles.len()].clone();
@@ -382,7 +408,7 @@ async fn exec_async(case: Arc<Case>) -> CaseResult {
                 Ok(Ok(())) => {
                     successes += 1;
                     // buffered arrivals are bounded by the hand-off queues; opening can never succeed
-                    if kind >= 3 || successes > 16 {
+                    if kind >= 3 || successes > 64 {
                         shared.lock().unwrap().results.push((name.to_string(), "Ok".into()));
                         break;
                     }
